@@ -167,7 +167,7 @@ func main() {
 	r.MaybeReplay()
 	maxLen := 9
 	if r.Thorough() {
-		maxLen = 10
+		maxLen = 11
 	}
 	alpha := enum.Bytes("-", " ", "a", ">", "\n", "\r", "\xff")
 	var evals, nontrivial, needs, quoted int64
